@@ -4,12 +4,14 @@
    (1) MsgPack, memory reader: LoadObject<MsgPackArchive>(std::map<std::string,int>&, bytes)
        bit_serializer.h LoadObject -> MsgPackReadRootScope::OpenObjectScope (ReadMapSize)
        -> CMsgPackReadObjectScope -> SerializeMapImpl (generic_map.h) -> VisitKeys -> ReadKey / SerializeValue
-       -> ~CMsgPackReadObjectScope (ResetKey + "skip key/values that was not read").
+       -> ~CMsgPackReadObjectScope (ResetKey + "skip key/values that was not read", guarded by try/catch(...)
+          since /repo commits 0863f96 and 3580349).
        Byte subset: fixmap header at the root; keys fixstr / fixint; values fixint; SkipValue additionally knows
        nil / bool.  Any other byte where a type is inspected sets mp_unmodelled (the answer is then UNMODELLED and
        such inputs are not part of the correspondence).
    (2) CSV, string writer: SaveObject<CsvArchive>(std::vector<std::map<std::string,int>>&) — one
-       CCsvWriteObjectScope per row, WriteValue per field, ~CCsvWriteObjectScope -> NextLine. *)
+       CCsvWriteObjectScope per row, WriteValue per field, ~CCsvWriteObjectScope -> NextLine (error deferred to
+       CsvWriteRootScope::Finalize since /repo commit 0a28cd4). *)
 From Coq Require Import NArith List Bool Arith.
 From BS Require Import InvSpec.
 Import ListNotations.
@@ -30,27 +32,29 @@ Record mp_state := {
   mp_idx : nat;           (* mIndex *)
   mp_keyset : bool;       (* mCurrentKey (operator bool): set by GetValueRef *before* the key is read *)
   mp_loaded : nat;        (* number of map entries stored in the target *)
+  mp_close_failed : bool; (* IMsgPackReader::mCloseScopeFailed (set by a scope destructor whose skip failed) *)
   mp_unmodelled : bool }.
 
 Definition mp_init (inp : list N) : mp_state :=
   {| mp_inp := inp; mp_pos := 0; mp_start := 0; mp_size := 0; mp_idx := 0; mp_keyset := false; mp_loaded := 0;
-     mp_unmodelled := false |}.
+     mp_close_failed := false; mp_unmodelled := false |}.
 
 Definition set_pos (s : mp_state) (p : nat) : mp_state :=
   {| mp_inp := mp_inp s; mp_pos := p; mp_start := mp_start s; mp_size := mp_size s; mp_idx := mp_idx s;
-     mp_keyset := mp_keyset s; mp_loaded := mp_loaded s; mp_unmodelled := mp_unmodelled s |}.
+     mp_keyset := mp_keyset s; mp_loaded := mp_loaded s; mp_close_failed := mp_close_failed s; mp_unmodelled := mp_unmodelled s |}.
 Definition set_key (s : mp_state) (k : bool) : mp_state :=
   {| mp_inp := mp_inp s; mp_pos := mp_pos s; mp_start := mp_start s; mp_size := mp_size s; mp_idx := mp_idx s;
-     mp_keyset := k; mp_loaded := mp_loaded s; mp_unmodelled := mp_unmodelled s |}.
+     mp_keyset := k; mp_loaded := mp_loaded s; mp_close_failed := mp_close_failed s; mp_unmodelled := mp_unmodelled s |}.
 Definition inc_idx (s : mp_state) : mp_state :=
   {| mp_inp := mp_inp s; mp_pos := mp_pos s; mp_start := mp_start s; mp_size := mp_size s; mp_idx := S (mp_idx s);
-     mp_keyset := mp_keyset s; mp_loaded := mp_loaded s; mp_unmodelled := mp_unmodelled s |}.
+     mp_keyset := mp_keyset s; mp_loaded := mp_loaded s; mp_close_failed := mp_close_failed s; mp_unmodelled := mp_unmodelled s |}.
 Definition inc_loaded (s : mp_state) : mp_state :=
   {| mp_inp := mp_inp s; mp_pos := mp_pos s; mp_start := mp_start s; mp_size := mp_size s; mp_idx := mp_idx s;
-     mp_keyset := mp_keyset s; mp_loaded := S (mp_loaded s); mp_unmodelled := mp_unmodelled s |}.
+     mp_keyset := mp_keyset s; mp_loaded := S (mp_loaded s); mp_close_failed := mp_close_failed s; mp_unmodelled := mp_unmodelled s |}.
 Definition unmodelled (s : mp_state) : outcome mp_state err :=
   Err EUnmodelled {| mp_inp := mp_inp s; mp_pos := mp_pos s; mp_start := mp_start s; mp_size := mp_size s;
-                     mp_idx := mp_idx s; mp_keyset := mp_keyset s; mp_loaded := mp_loaded s; mp_unmodelled := true |}.
+                     mp_idx := mp_idx s; mp_keyset := mp_keyset s; mp_loaded := mp_loaded s;
+                     mp_close_failed := mp_close_failed s; mp_unmodelled := true |}.
 
 Definition byte_at (s : mp_state) : option N := nth_error (mp_inp s) (mp_pos s).
 Local Open Scope N_scope.
@@ -67,7 +71,7 @@ Definition open_object_scope (s : mp_state) : outcome mp_state err :=
       if is_fixmap b then
         Ok {| mp_inp := mp_inp s; mp_pos := S (mp_pos s); mp_start := S (mp_pos s);
               mp_size := N.to_nat (b - 0x80)%N; mp_idx := 0; mp_keyset := false; mp_loaded := mp_loaded s;
-              mp_unmodelled := mp_unmodelled s |}
+              mp_close_failed := mp_close_failed s; mp_unmodelled := mp_unmodelled s |}
       else unmodelled s
   end.
 
@@ -101,7 +105,7 @@ Definition visit_keys_prologue (s : mp_state) : outcome mp_state err :=
   match reset_key s with
   | Ok s1 => Ok {| mp_inp := mp_inp s1; mp_pos := mp_start s1; mp_start := mp_start s1; mp_size := mp_size s1;
                    mp_idx := 0; mp_keyset := mp_keyset s1; mp_loaded := mp_loaded s1;
-                   mp_unmodelled := mp_unmodelled s1 |}
+                   mp_close_failed := mp_close_failed s1; mp_unmodelled := mp_unmodelled s1 |}
   | o => o
   end.
 
@@ -145,35 +149,48 @@ Fixpoint skip_pairs (n : nat) (s : mp_state) : outcome mp_state err :=
            | o => o
            end
   end.
-Definition dtor_read_object_scope (s : mp_state) : outcome mp_state err :=
+(* ~CMsgPackReadObjectScope as repaired by /repo commits 0863f96, 3580349 and 8d03f7f:
+     try { ResetKey(); for (c = mIndex; c < mSize; ++c) { SkipValue(); SkipValue(); ++mIndex; } }
+     catch (...) { mMsgPackReader->SetCloseScopeFailed(); }
+   MsgPackReadRootScope::Finalize() then throws ParsingException when the flag is set. *)
+Definition dtor_skip_unread (s : mp_state) : outcome mp_state err :=
   match reset_key s with
   | Ok s1 => skip_pairs (mp_size s1 - mp_idx s1) s1
   | o => o
   end.
+Definition set_close_failed (s : mp_state) : mp_state :=
+  {| mp_inp := mp_inp s; mp_pos := mp_pos s; mp_start := mp_start s; mp_size := mp_size s; mp_idx := mp_idx s;
+     mp_keyset := mp_keyset s; mp_loaded := mp_loaded s; mp_close_failed := true; mp_unmodelled := mp_unmodelled s |}.
+Definition dtor_read_object_scope (s : mp_state) : outcome mp_state err :=
+  match dtor_skip_unread s with
+  | Ok s2 => Ok s2
+  | Err _ s2 => Ok (set_close_failed s2)       (* catch (...) { SetCloseScopeFailed(); } *)
+  | Terminate => Terminate
+  end.
+(* LoadObject: archive.Finalize() after the root value has been loaded *)
+Definition mp_finalize (s : mp_state) : outcome mp_state err :=
+  if mp_close_failed s then Err EParse s else Ok s.
 
 (* each iteration advances mIndex by exactly one (SerializeValue or ResetKey), so the loop body runs mSize times *)
 Definition mp_load_map : prog mp_state err :=
   Scope false                                               (* MsgPackReadRootScope; its destructor deletes the reader *)
     (Seq (Act open_object_scope)
-         (Scope false                                       (* CMsgPackReadObjectScope *)
-            (Seq (Act visit_keys_prologue) (Dyn (fun s => iterate (mp_size s) visit_one)))
-            dtor_read_object_scope))
+         (Seq (Scope false                                  (* CMsgPackReadObjectScope *)
+                 (Seq (Act visit_keys_prologue) (Dyn (fun s => iterate (mp_size s) visit_one)))
+                 dtor_read_object_scope)
+              (Act mp_finalize)))                           (* archive.Finalize() *)
     (fun s => Ok s).
 
 Definition mp_run (inp : list N) : outcome mp_state err := exec mp_load_map (mp_init inp).
 
-(* the same load with the scope destructor repaired (skip errors swallowed: `try { ... } catch (...) {}`) *)
-Definition dtor_read_object_scope_repaired (s : mp_state) : outcome mp_state err :=
-  match dtor_read_object_scope s with
-  | Ok s1 => Ok s1
-  | _ => Ok s
-  end.
-Definition mp_load_map_repaired : prog mp_state err :=
+(* the destructor as it was before those commits (F17): nothing guarded.  Kept to show that the guard is what
+   makes the difference (InvExn.mp_unguarded_dtor_terminates). *)
+Definition mp_load_map_unguarded : prog mp_state err :=
   Scope false
     (Seq (Act open_object_scope)
          (Scope false
             (Seq (Act visit_keys_prologue) (Dyn (fun s => iterate (mp_size s) visit_one)))
-            dtor_read_object_scope_repaired))
+            dtor_skip_unread))
     (fun s => Ok s).
 
 (* ------------------------------------------------------------------------------------------------ *)
@@ -183,25 +200,48 @@ Record csv_state := {
   cw_row : nat;           (* mRowIndex *)
   cw_values : nat;        (* mValueIndex *)
   cw_prev : nat;          (* mPrevValuesCount *)
-  cw_lines : nat }.       (* data lines appended to the output *)
+  cw_lines : nat;         (* data lines appended to the output *)
+  cw_deferred : option err }.   (* ICsvWriter::mDeferredError (first error wins), /repo commit 0a28cd4 *)
 
-Definition csv_init : csv_state := {| cw_row := 0; cw_values := 0; cw_prev := 0; cw_lines := 0 |}.
+Definition csv_init : csv_state := {| cw_row := 0; cw_values := 0; cw_prev := 0; cw_lines := 0; cw_deferred := None |}.
 
 (* CCsvStringWriter::WriteValue *)
 Definition write_value (s : csv_state) : outcome csv_state err :=
-  Ok {| cw_row := cw_row s; cw_values := S (cw_values s); cw_prev := cw_prev s; cw_lines := cw_lines s |}.
+  Ok {| cw_row := cw_row s; cw_values := S (cw_values s); cw_prev := cw_prev s; cw_lines := cw_lines s;
+        cw_deferred := cw_deferred s |}.
 
 (* CCsvStringWriter::NextLine *)
 Definition next_line (s : csv_state) : outcome csv_state err :=
   if Nat.eqb (cw_row s) 0 then
-    Ok {| cw_row := 1; cw_values := 0; cw_prev := cw_values s; cw_lines := S (cw_lines s) |}
+    Ok {| cw_row := 1; cw_values := 0; cw_prev := cw_values s; cw_lines := S (cw_lines s); cw_deferred := cw_deferred s |}
   else if Nat.eqb (cw_values s) (cw_prev s) then
-    Ok {| cw_row := S (cw_row s); cw_values := 0; cw_prev := cw_prev s; cw_lines := S (cw_lines s) |}
-  else Err EOutOfRange s.       (* "Number of values are different than in previous line" *)
+    Ok {| cw_row := S (cw_row s); cw_values := 0; cw_prev := cw_prev s; cw_lines := S (cw_lines s);
+          cw_deferred := cw_deferred s |}
+  else Err EOutOfRange s.       (* "Number of values are different than in previous line"; thrown before the row is
+                                   flushed, so mValueIndex / mCurrentRow keep growing with the next row *)
+
+(* ~CCsvWriteObjectScope since /repo commit 0a28cd4:
+     try { mCsvWriter->NextLine(); } catch (...) { mCsvWriter->DeferError(std::current_exception()); } *)
+Definition defer (e : err) (s : csv_state) : csv_state :=
+  {| cw_row := cw_row s; cw_values := cw_values s; cw_prev := cw_prev s; cw_lines := cw_lines s;
+     cw_deferred := match cw_deferred s with Some e0 => Some e0 | None => Some e end |}.
+Definition dtor_write_object_scope (s : csv_state) : outcome csv_state err :=
+  match next_line s with
+  | Ok s1 => Ok s1
+  | Err e s1 => Ok (defer e s1)
+  | Terminate => Terminate
+  end.
+(* CsvWriteRootScope::Finalize(): RethrowDeferredError() *)
+Definition csv_finalize (s : csv_state) : outcome csv_state err :=
+  match cw_deferred s with Some e => Err e s | None => Ok s end.
+
+(* the destructor as it was before that commit (F18) *)
+Definition csv_row_unguarded (width : nat) : prog csv_state err :=
+  Scope false ((fix it n := match n with 0 => Skip | S k => Seq (Act write_value) (it k) end) width) next_line.
 
 (* one row: CsvWriteArrayScope::OpenObjectScope, `width` fields, ~CCsvWriteObjectScope *)
 Definition csv_row (width : nat) : prog csv_state err :=
-  Scope false (iterate width (Act write_value)) next_line.
+  Scope false (iterate width (Act write_value)) dtor_write_object_scope.
 
 Fixpoint csv_rows (widths : list nat) : prog csv_state err :=
   match widths with
@@ -209,9 +249,10 @@ Fixpoint csv_rows (widths : list nat) : prog csv_state err :=
   | w :: rest => Seq (csv_row w) (csv_rows rest)
   end.
 
-(* CsvWriteRootScope (destructor deletes the writer) around the array scope (no destructor body) *)
+(* CsvWriteRootScope (destructor deletes the writer) around the array scope (no destructor body), then
+   archive.Finalize() *)
 Definition csv_save (widths : list nat) : prog csv_state err :=
-  Scope false (csv_rows widths) (fun s => Ok s).
+  Scope false (Seq (csv_rows widths) (Act csv_finalize)) (fun s => Ok s).
 
 Definition csv_run (widths : list nat) : outcome csv_state err := exec (csv_save widths) csv_init.
 
